@@ -7,7 +7,7 @@
    implementation-side dominance check on real containers of 21..64 items. *)
 From Coq Require Import List NArith String Bool.
 From Model Require Import Base Names Flt F32 Matches Detect.
-From Proofs Require Import SortFacts ContainerFacts FloatLaws F32Facts.
+From Proofs Require Import SortFacts ContainerFacts FloatLaws F32Facts SortAdjacent.
 From Model Require Import F32.
 From Proofs Require Import F32Laws.
 Import ListNotations.
@@ -70,3 +70,36 @@ Print Assumptions C08_prefers_is_two_sided_binary32.
 Theorem C08_cmp_laws_hold_for_binary32 : CmpLaws F32ops.
 Proof. exact F32_CmpLaws. Qed.
 Print Assumptions C08_cmp_laws_hold_for_binary32.
+
+(* ranking beyond the extremes: in every container reachable through the public API, and in every
+   result of from_bytes, NO match is strictly preferred to the one listed just before it -- for any
+   number of matches and without transitivity (which the tolerance comparison does not have).
+   Needs only |x-y| = |y-x| and totality of the NaN-greatest order (CmpLaws). *)
+Theorem C08_no_adjacent_inversion :
+  forall FO, CmpLaws FO -> forall c l1 a b l2, KS FO c -> c = l1 ++ a :: b :: l2 -> is_less FO b a = false.
+Proof. exact container_adjacent. Qed.
+Print Assumptions C08_no_adjacent_inversion.
+
+Theorem C08_detection_no_adjacent_inversion :
+  forall FO, CmpLaws FO -> forall (R : oracles FO) bytes cfg r l1 a b l2,
+    from_bytes FO R bytes cfg = Ok r -> r = l1 ++ a :: b :: l2 -> cmp FO b a <> Lt.
+Proof. exact from_bytes_adjacent. Qed.
+Print Assumptions C08_detection_no_adjacent_inversion.
+
+(* the sort itself, for ANY asymmetric comparison *)
+Theorem C08_sort_no_adjacent_inversion :
+  forall A (lt : A -> A -> bool), (forall a b, lt a b = true -> lt b a = false) ->
+  forall l l1 a b l2, isort lt l = l1 ++ a :: b :: l2 -> lt b a = false.
+Proof. exact @isort_adjacent. Qed.
+Print Assumptions C08_sort_no_adjacent_inversion.
+
+Theorem C08_detection_no_adjacent_inversion_binary32 :
+  forall (R : oracles F32ops) bytes cfg r l1 a b l2,
+    from_bytes F32ops R bytes cfg = Ok r -> r = l1 ++ a :: b :: l2 -> cmp F32ops b a <> Lt.
+Proof. exact (C08_detection_no_adjacent_inversion F32ops F32_CmpLaws). Qed.
+Print Assumptions C08_detection_no_adjacent_inversion_binary32.
+
+(* non-vacuity: a list with a tie is sorted without adjacent inversion *)
+Example C08_adjacent_example :
+  isort N.ltb [3; 1; 2; 1]%N = [1; 1; 2; 3]%N.
+Proof. reflexivity. Qed.
